@@ -251,6 +251,24 @@ func c13Case(c *Ctx, id, stack string, items []string) {
 						fail(sig, "after step %d (%s): %s(%s)+Readdirnames(-1) through the filter = %q, directories and matching files of the direct listing = %q", i, it, how, p, names, want)
 						return
 					}
+					// ... and the same names when the directory is read one entry per call: however many
+					// hidden entries lie between two visible ones, the visible ones all turn up before EOF
+					if ph, err := through.Open(p); err == nil {
+						var paged []string
+						for k := 0; k < 5000; k++ {
+							page, perr := ph.Readdirnames(1)
+							paged = append(paged, page...)
+							if perr != nil || len(page) == 0 {
+								break
+							}
+						}
+						ph.Close()
+						sort.Strings(paged)
+						if strings.Join(paged, "\x00") != strings.Join(want, "\x00") {
+							fail("listing-differs:paged", "after step %d (%s): %s read one entry per call through the filter = %q, directories and matching files of the direct listing = %q", i, it, p, paged, want)
+							return
+						}
+					}
 				}
 			}
 		})
